@@ -163,6 +163,18 @@ func (m *machine) Gen(t *rapid.T) Op {
 				op.X = 2
 			}
 			nb := rapid.SampledFrom([]int{1, 1, 40, 2, 3, 1, 5, 8, 16}).Draw(t, "burst")
+			if nb >= 16 {
+				// a window-filling burst of full-size packets (drives the handler into SendAck)
+				pk := m.genPk(t, lv1)
+				if pk.C+pk.S+pk.N == 0 {
+					pk.S = 1
+				}
+				pk.Sz = 1252
+				for i := 0; i < nb; i++ {
+					op.Pk = append(op.Pk, pk)
+				}
+				return op
+			}
 			for i := 0; i < nb; i++ {
 				op.Pk = append(op.Pk, m.genPk(t, lv1))
 			}
